@@ -170,6 +170,31 @@ theorem C01_valid_frames_encode (f : Frame) (hv : ValidFrame none f)
     exact hbody
   rw [this]; rfl
 
+/-- **No two frames share an encoding** (up to what the wire cannot carry): if two version-valid frames encode to the same
+    bytes, they are the same frame after `canonFrame`. An encoder that dropped or conflated a field would break this. -/
+theorem C01_encoding_injective (c : Option BodyCompressor) (f g : Frame) (hf : ValidFrame c f) (hg : ValidFrame c g)
+    (b : Bytes) (bl bl' : Nat) (h1 : encodeFrame c f = .ok (b, bl)) (h2 : encodeFrame c g = .ok (b, bl')) :
+    canonFrame f bl = canonFrame g bl' := by
+  have r1 := C01_frame_roundtrip c f hf b bl h1 []
+  have r2 := C01_frame_roundtrip c g hg b bl' h2 []
+  rw [r1] at r2
+  exact congrArg Prod.fst (Res.ok_inj r2)
+
+/-- a frame followed by any bytes decodes to the same frame as the frame alone: the decoder never looks past the frame -/
+theorem C01_decoder_ignores_what_follows (c : Option BodyCompressor) (f : Frame) (hv : ValidFrame c f) (b : Bytes) (bl : Nat)
+    (hw : encodeFrame c f = .ok (b, bl)) (rest : Bytes) :
+    ((decodeFrame c).run (b ++ rest)).isOk = true ∧
+      ∀ f1 r1 f2 r2, (decodeFrame c).run (b ++ rest) = .ok (f1, r1) → (decodeFrame c).run b = .ok (f2, r2) → f1 = f2 ∧ r1 = rest ∧ r2 = [] := by
+  have h1 := C01_frame_roundtrip c f hv b bl hw rest
+  have h2 := C01_frame_roundtrip c f hv b bl hw []
+  rw [List.append_nil] at h2
+  refine ⟨by rw [h1]; rfl, ?_⟩
+  intro f1 r1 f2 r2 e1 e2
+  rw [h1] at e1; rw [h2] at e2
+  have a := Res.ok_inj e1
+  have b' := Res.ok_inj e2
+  exact ⟨(congrArg Prod.fst a).symm.trans (congrArg Prod.fst b'), (congrArg Prod.snd a).symm, (congrArg Prod.snd b').symm⟩
+
 /-! ## non-vacuity: concrete non-trivial frames satisfy `ValidFrame` (one request, one response) -/
 
 def exFrame : Frame :=
